@@ -291,6 +291,15 @@ package codegen
 //@   at `ec.resolvers....` ghost pending = 0
 //@   loop 2: invariant pending == 0
 
+// type.gotpl, list branch of unmarshal<T>: C02 "an input that cannot be coerced is reported as an error at the
+// argument's path" - the path of element i is <list path> + [i]: every element's path context is derived from the
+// context the function was called with, never from the context of the previous element.
+//@ trusted github.com/99designs/gqlgen/graphql.NewPathWithIndex(i) (p)
+//@   nopanic
+//@   pure
+//@ family listunmarshal [C02]
+//@   at! `graphql.WithPathContext(ctx, graphql.NewPathWithIndex(i))` requires arg0 == old(ctx)
+
 // type.gotpl with exec.worker_limit > 0: the element goroutine gives its semaphore slot back on EVERY path,
 // including a recovered panic (otherwise later elements can never acquire and the list never completes).
 //@ family listwl [C04,C05,C06]
